@@ -279,7 +279,16 @@ def run_trace(spec, seed):
                     pre["term_cond"] = bool(s._termination(s))
                     pre["maxiter"] = s._maxiter; pre["maxfun"] = s._maxfun; pre["earlyexit"] = bool(s._EARLYEXIT)
             if k == "step":
-                ret = s.Step(prob.cost_fn, **kw)
+                kw_step = dict(kw)
+                if len(op) > 1:
+                    # settings handed to Step itself (`Step(cost, constraints=c, penalty=p)`): documented one-time inputs
+                    # processed by `_process_inputs` inside `_Step`, i.e. AFTER the stop test of this Step
+                    for name, val in op[1].items():
+                        if name == "constraints":
+                            kw_step["constraints"] = prob.constraints_fn(val, prob.inplace) if val is not None else None
+                        elif name == "penalty":
+                            kw_step["penalty"] = prob.penalty_fn(val) if val is not None else None
+                ret = s.Step(prob.cost_fn, **kw_step)
             elif k == "solve":
                 ret = s.Solve(prob.cost_fn, **kw)
             elif k == "setlimits":
@@ -310,8 +319,9 @@ def run_trace(spec, seed):
                 from mystic.monitors import Monitor
                 s.SetEvaluationMonitor(Monitor(), new=bool(op[1]))
             elif k == "setstepmon":
-                from mystic.monitors import Monitor
-                s.SetGenerationMonitor(Monitor(), new=bool(op[1]))
+                from mystic.monitors import Monitor, Null
+                kindm = op[2] if len(op) > 2 else "monitor"
+                s.SetGenerationMonitor({"monitor": Monitor(), "none": None, "null": Null()}[kindm], new=bool(op[1]))
             else:
                 raise ValueError(op)
             sn = snapshot(s, rec, op, ret)
